@@ -13,6 +13,7 @@ package kv
 
 import (
 	"context"
+	"errors"
 	"fmt"
 	"sort"
 	"strings"
@@ -22,6 +23,7 @@ import (
 
 	"github.com/alicebob/miniredis/v2"
 	"github.com/alicebob/miniredis/v2/server"
+	red "github.com/go-redis/redis/v8"
 	kit "github.com/gotid/god/internal/verifkit"
 	"github.com/gotid/god/lib/breaker"
 	"github.com/gotid/god/lib/logx"
@@ -122,12 +124,93 @@ func c12ErrClass(err error) string {
 		return "nil"
 	case err == breaker.ErrServiceUnavailable:
 		return "breaker-open"
+	case errors.Is(err, context.Canceled) || allLines(err, context.Canceled.Error()):
+		return "canceled"
+	case errors.Is(err, context.DeadlineExceeded) || allLines(err, context.DeadlineExceeded.Error()):
+		return "deadline"
 	case strings.HasPrefix(err.Error(), "WRONGTYPE"):
 		return "wrongtype"
 	case strings.Contains(err.Error(), "not an integer"):
 		return "notint"
 	}
 	return "other:" + err.Error()
+}
+
+// allLines: a batch of errors (kv.Store.Del over several shards) that all are the same error
+func allLines(err error, msg string) bool {
+	for _, l := range strings.Split(err.Error(), "\n") {
+		if l != msg {
+			return false
+		}
+	}
+	return true
+}
+
+var (
+	c12Cancelled context.Context
+	c12Expired   context.Context
+)
+
+func init() {
+	var cancel context.CancelFunc
+	c12Cancelled, cancel = context.WithCancel(context.Background())
+	cancel()
+	c12Expired, cancel = context.WithDeadline(context.Background(), time.Now().Add(-time.Hour))
+	_ = cancel
+}
+
+// c12Queue queues one model command on a pipeline and returns its Cmder.
+func c12Queue(ctx context.Context, p redis.Pipeliner, x *c12Run, q kit.M) red.Cmder {
+	k := x.key(q["k"])
+	switch kit.Str(q["op"]) {
+	case "get":
+		return p.Get(ctx, k)
+	case "set":
+		return p.Set(ctx, k, kit.Str(q["v"]), 0)
+	case "incrby":
+		return p.Incr(ctx, k)
+	case "del":
+		return p.Del(ctx, x.keys(q["ks"])...)
+	case "exists":
+		return p.Exists(ctx, k)
+	case "hget":
+		return p.HGet(ctx, k, kit.Str(q["f"]))
+	case "hset":
+		return p.HSet(ctx, k, kit.Str(q["f"]), kit.Str(q["v"]))
+	case "lpop":
+		return p.LPop(ctx, k)
+	case "llen":
+		return p.LLen(ctx, k)
+	case "rpush":
+		return p.RPush(ctx, k, kit.List(q["vs"])...)
+	case "sadd":
+		return p.SAdd(ctx, k, kit.List(q["ms"])...)
+	case "scard":
+		return p.SCard(ctx, k)
+	case "zadd":
+		return p.ZAdd(ctx, k, &red.Z{Score: float64(kit.Num(q["s"])), Member: kit.Str(q["m"])})
+	case "zscore":
+		return p.ZScore(ctx, k, kit.Str(q["m"]))
+	}
+	return nil
+}
+
+// c12CmderReply: what one command of a pipeline reports through its Cmder, in the model's shape
+func c12CmderReply(op string, c red.Cmder) (any, error) {
+	switch cc := c.(type) {
+	case *red.StringCmd:
+		return cc.Val(), cc.Err()
+	case *red.StatusCmd:
+		return 0, cc.Err()
+	case *red.FloatCmd:
+		return int64(cc.Val()), cc.Err()
+	case *red.IntCmd:
+		if op == "exists" || op == "zadd" {
+			return cc.Val() == 1, cc.Err()
+		}
+		return cc.Val(), cc.Err()
+	}
+	return nil, fmt.Errorf("verif: unexpected Cmder %T", c)
 }
 
 func pick[T any](useCtx bool, plain, withCtx func() (T, error)) (any, error) {
@@ -505,6 +588,9 @@ func c12Snap(servers []*miniredis.Miniredis, real, model string) (kit.M, error) 
 
 func c12KVCompatible(steps []any) bool {
 	for _, st := range steps {
+		if st.(kit.M)["p"] != nil {
+			return false // kv.Store has no pipelines
+		}
 		c := st.(kit.M)["c"].(kit.M)
 		op := kit.Str(c["op"])
 		if c12NotInStore[op] || (op == "hdel" && len(kit.List(c["fs"])) != 1) {
@@ -557,10 +643,104 @@ func runC12Case(c kit.Case, targets []*c12Target, seed int64, rep *kit.Reporter,
 		}
 		x := &c12Run{t: t, prefix: fmt.Sprintf("c%d:", c.Index), ctx: context.Background()}
 		trail := []string{}
-		for i, st := range steps {
+		for i := 0; i < len(steps); i++ {
+			st := steps[i]
 			cmd := st.(kit.M)["c"].(kit.M)
 			want := st.(kit.M)["r"].(kit.M)
 			op := kit.Str(cmd["op"])
+			if pm, ok := st.(kit.M)["p"].(kit.M); ok {
+				// a pipeline: this and the following n-1 steps are queued in one Pipelined call
+				n := kit.Num(pm["n"])
+				if kit.Num(pm["i"]) != 1 || i+n > len(steps) {
+					return kit.Verdict{Case: c.Index, Infra: true, Msg: "malformed pipeline in the behaviour"}
+				}
+				uc := (seed+int64(c.Index)+int64(i))%2 == 0
+				var cmders []red.Cmder
+				fn := func(p redis.Pipeliner) error {
+					cmders = cmders[:0]
+					for j := 0; j < n; j++ {
+						cmders = append(cmders, c12Queue(x.ctx, p, x, steps[i+j].(kit.M)["c"].(kit.M)))
+					}
+					return nil
+				}
+				n0 := t.ncmd.Load()
+				var perr error
+				form := "Pipelined"
+				if uc {
+					form = "PipelinedCtx"
+					perr = t.rds.PipelinedCtx(x.ctx, fn)
+				} else {
+					perr = t.rds.Pipelined(fn)
+				}
+				if sent := t.ncmd.Load() - n0; sent > int64(n) {
+					if !last {
+						return kit.Verdict{Case: c.Index, Infra: true, Msg: c12Disturbed}
+					}
+					return fail(i, "C12:pipeline:commands-sent", fmt.Sprintf("%s of %d commands: %d commands reached the server in three attempts", form, n, sent))
+				}
+				var desc []string
+				for j := 0; j < n; j++ {
+					desc = append(desc, kit.Canon(steps[i+j].(kit.M)["c"]))
+				}
+				where := fmt.Sprintf("%s step %d %s{%s}", t.name, i, form, strings.Join(desc, "; "))
+				for j := 0; j < n; j++ {
+					q := steps[i+j].(kit.M)["c"].(kit.M)
+					qw := steps[i+j].(kit.M)["r"].(kit.M)
+					qop := kit.Str(q["op"])
+					if j >= len(cmders) || cmders[j] == nil {
+						return kit.Verdict{Case: c.Index, Infra: true, Msg: "no Cmder for queued command " + qop}
+					}
+					got, err := c12CmderReply(qop, cmders[j])
+					if err != nil && strings.HasPrefix(err.Error(), "verif:") {
+						return kit.Verdict{Case: c.Index, Infra: true, Msg: err.Error()}
+					}
+					v.Steps++
+					rep.Count(t.name+".pipe."+qop, 1)
+					if g, w := c12ErrClass(err), kit.Str(qw["err"]); g != w {
+						return fail(i+j, "C12:pipeline:"+qop+":err",
+							fmt.Sprintf("%s: command %d (%s) reports error %q through its Cmder, specification %q", where, j+1, qop, g, w))
+					}
+					if err != nil || c12NoValue[qop] {
+						continue
+					}
+					if g, w := canonOrdered(got), canonOrdered(qw["v"]); g != w {
+						return fail(i+j, "C12:pipeline:"+qop+":reply",
+							fmt.Sprintf("%s: command %d (%s) reports %s through its Cmder, specification %s", where, j+1, qop, g, w))
+					}
+				}
+				wantErr := kit.Str(steps[i+n-1].(kit.M)["p"].(kit.M)["perr"])
+				if g := c12ErrClass(perr); g != wantErr {
+					return fail(i, "C12:pipeline:error-shape",
+						fmt.Sprintf("%s returned error %q (%v), specification %q (the error of the first failed command)", where, g, perr, wantErr))
+				}
+				i += n - 1
+				continue
+			}
+			if mode := kit.Str(st.(kit.M)["ctx"]); mode != "" {
+				// the Ctx form with a context that is already dead: the context's error, nothing sent
+				x.ctx = c12Cancelled
+				if mode == "deadline" {
+					x.ctx = c12Expired
+				}
+				n0 := t.ncmd.Load()
+				_, err := x.exec(cmd, true)
+				x.ctx = context.Background()
+				sent := t.ncmd.Load() - n0
+				v.Steps++
+				rep.Count(t.name+".ctx."+mode, 1)
+				where := fmt.Sprintf("%s step %d %s [Ctx form, context %s]", t.name, i, kit.Canon(cmd), mode)
+				if err != nil && strings.HasPrefix(err.Error(), "verif:") {
+					return kit.Verdict{Case: c.Index, Infra: true, Msg: err.Error()}
+				}
+				if sent > 0 {
+					return fail(i, fmt.Sprintf("C12:ctx-form:ignores-context:%s", op),
+						fmt.Sprintf("%s: %d command(s) reached the server (error %q), specification: error %q, server untouched", where, sent, c12ErrClass(err), mode))
+				}
+				if g, w := c12ErrClass(err), kit.Str(want["err"]); g != w {
+					return fail(i, fmt.Sprintf("C12:ctx-form:error:%s", op), fmt.Sprintf("%s: error %q, specification %q", where, g, w))
+				}
+				continue
+			}
 			trail = append(trail, kit.Canon(cmd))
 			if len(trail) > 6 {
 				trail = trail[1:]
